@@ -88,9 +88,11 @@ def c04(ctx: Ctx) -> None:
     RP.rule_polarity(ctx, P + "_tactic_2", "refine", True, "constant-decrement")
     RP.rule_polarity(ctx, P + "_get_tlp_context", "refine", True, "none")
     RP.rule_tactic4_sign(ctx)
+    RP.rule_matrix_provenance(ctx, P + "_tactic_2")
+    RP.rule_matrix_provenance(ctx, P + "_get_tlp_context")
     RP.rule_kaykobad_guards(ctx)
     RE.rule_optional_results(ctx)
-    RK.rule_term_kernels(ctx, ["multiply", "add", "remove", "substitute", "isolate", "copy", "symbolic"])
+    RK.rule_term_kernels(ctx, ["multiply", "add", "remove", "substitute", "isolate", "copy", "symbolic", "accessors"])
     RP.rule_lp_bounds(ctx)
 
 
@@ -100,6 +102,7 @@ def c07(ctx: Ctx) -> None:
     RP.rule_lp_compare(ctx, P + "reduce_polytope", tolerance_rule=False, require_boundary=False)
     RP.rule_lp_objective(ctx, P + "reduce_polytope")
     RP.rule_matrix_provenance(ctx, P + "reduce_polytope")
+    RP.rule_reduce_loop_discipline(ctx)
     RS.rule_eq(ctx)
     RP.rule_simplify_wiring(ctx)
     RP.rule_polytope_roundtrip(ctx)
@@ -110,6 +113,7 @@ def c07(ctx: Ctx) -> None:
 def c11(ctx: Ctx) -> None:
     P = RP.PTL
     RP.rule_contains_behavior(ctx)
+    RP.rule_matrix_provenance(ctx, RP.PTL + "is_polytope_empty")
     RK.rule_term_kernels(ctx, ["evaluate", "substitute", "multiply", "add", "remove"])
     RP.rule_status_table(ctx, P + "is_polytope_empty")
     RP.rule_is_empty_wiring(ctx)
@@ -119,6 +123,7 @@ def c11(ctx: Ctx) -> None:
 def c12(ctx: Ctx) -> None:
     P = RP.PTL
     RP.rule_status_table(ctx, P + "optimize")
+    RP.rule_matrix_provenance(ctx, P + "optimize")
     RP.rule_polarity(ctx, P + "optimize", "maximize", True, "return")
     RP.rule_get_variable_bounds(ctx)
     RP.rule_lp_bounds(ctx)
@@ -193,6 +198,7 @@ def c03(ctx: Ctx) -> None:
     RP.rule_lp_compare(ctx, P + "verify_polytope_containment")
     RP.rule_lp_objective(ctx, P + "verify_polytope_containment")
     RP.rule_matrix_provenance(ctx, P + "verify_polytope_containment")
+    RP.rule_matrix_provenance(ctx, P + "is_polytope_empty")
     RP.rule_lp_bounds(ctx)
     RA.rule_tl_operators(ctx)
     RA.rule_refines_shape(ctx, RA.GENERIC, "refines", RA.EXPECTED_REFINES, True)
